@@ -214,7 +214,8 @@ def _encode(case):
     except Exception as ex:      # noqa
         import sys
         site = _site(sys.exc_info()[2])
-        if isinstance(ex, ValueError) and site == 'asFastq':
+        # raised while the record is serialised (asFastq or any helper it calls), not necessarily in asFastq's own frame
+        if isinstance(ex, ValueError) and 'asFastq' in [f.name for f in traceback.extract_tb(sys.exc_info()[2])]:
             return 'refused', None       # the bulk strategy serialises inside demultiplex: a loud refusal
         return 'exception', (f'encode:{site}:exception:{type(ex).__name__}', repr(ex))
     lines = []
